@@ -559,7 +559,7 @@ func (r *Runner) adminMsg(in *Input) sdk.Msg {
 		return &adaptertypes.MsgUpdateParams{Signer: signer, Params: adaptertypes.Params{MaxPassthroughPayloadSize: v}}
 	case "ReplaceDepositForBurn":
 		return &forwardertypes.MsgReplaceDepositForBurn{Signer: signer,
-			OriginalMessage: []byte("orig-msg-" + in.Who), OriginalAttestation: []byte("att-" + in.Who),
+			OriginalMessage: origMsg(in.Who), OriginalAttestation: []byte("att-" + in.Who),
 			NewDestinationCaller: r.w.bytesOf(in.Fw.Caller), NewMintRecipient: r.w.bytesOf(in.Fw.Mint)}
 	}
 	// an RPC the specification does not model (added to the module later): default body
